@@ -42,7 +42,9 @@ theorem chooseBytes_bom_of_agree (env : Env) (t : Text) (b r : Bytes) (known : O
     (hs : sniff r = codingName t) (hc : codingName t = none ∨ ∃ n, codingName t = some n ∧ env.isUtf8 n = true) :
     chooseBytes env b known = .ok (utf8Name, r) := by
   simp only [chooseBytes, hb, hs, defaults_are_utf8.2.2.1, bomAgrees, bom_compared_by_codec, if_true]
-  rcases hc with hc | ⟨n, hc, hn⟩ <;> simp [hc, hn]
+  rcases hc with hc | ⟨n, hc, hn⟩
+  · simp [hc]
+  · simp [hc, hn]
 
 theorem stripBom_bom_append (b : Bytes) : stripBom (Generated.Encoding.bom ++ b) = some b := by
   simp [stripBom, bom_is_utf8_bom]
